@@ -441,8 +441,87 @@ impl Drop for DtlsTransport {
 }
 
 impl DtlsInner {
-    async fn handle_retransmit(&self, ctx: &HandshakeContext, _is_client: bool) {
+    /// Give every record of the stored flight a fresh record sequence number.
+    ///
+    /// A retransmission repeats the handshake messages (same `message_seq`) but it is a new
+    /// record: RFC 6347 4.1 numbers every record sent in an epoch, and a peer that runs the
+    /// anti-replay window of 4.1.2.6 silently drops a record whose number it has already
+    /// seen, so a flight re-sent byte for byte never reaches its handshake layer. Epoch 0
+    /// records only need the header rewritten; protected records are sealed again because
+    /// the sequence number is part of the nonce and of the additional data.
+    fn renumber_last_flight(&self, ctx: &mut HandshakeContext, is_client: bool) -> Result<()> {
+        let Some(records) = ctx.last_flight_records.take() else {
+            return Ok(());
+        };
+        let connected = matches!(*self.state.lock(), DtlsState::Connected(_, _));
+        // Next free number in an epoch we have already left: one past the highest number
+        // the flight itself used there (the flight was the last thing sent in that epoch).
+        let mut next_in_old_epoch = records
+            .iter()
+            .filter_map(|r| DtlsRecord::decode(&mut Bytes::copy_from_slice(r)).ok().flatten())
+            .filter(|r| r.epoch != ctx.epoch)
+            .map(|r| r.sequence_number + 1)
+            .max()
+            .unwrap_or(0);
+        let mut renumbered = Vec::with_capacity(records.len());
+        for raw in &records {
+            let Some(mut record) = DtlsRecord::decode(&mut Bytes::copy_from_slice(raw))? else {
+                renumbered.push(raw.clone());
+                continue;
+            };
+            let old_seq = record.sequence_number;
+            let new_seq = if record.epoch != ctx.epoch {
+                next_in_old_epoch += 1;
+                next_in_old_epoch - 1
+            } else if connected {
+                // Application data already draws from `write_seq` in this epoch.
+                self.write_seq.fetch_add(1, Ordering::SeqCst)
+            } else {
+                ctx.sequence_number += 1;
+                ctx.sequence_number - 1
+            };
+            if record.epoch > 0 {
+                let keys = ctx
+                    .session_keys
+                    .as_ref()
+                    .ok_or_else(|| anyhow::anyhow!("protected flight record without keys"))?;
+                let (key, iv) = if is_client {
+                    (&keys.client_write_key, &keys.client_write_iv)
+                } else {
+                    (&keys.server_write_key, &keys.server_write_iv)
+                };
+                let plaintext = decrypt_record(
+                    record.content_type,
+                    record.version,
+                    ((record.epoch as u64) << 48) | old_seq,
+                    &record.payload,
+                    key,
+                    iv,
+                )?;
+                record.payload = Bytes::from(encrypt_record(
+                    record.content_type,
+                    record.version,
+                    ((record.epoch as u64) << 48) | new_seq,
+                    &plaintext,
+                    key,
+                    iv,
+                )?);
+            }
+            record.sequence_number = new_seq;
+            let mut buf = BytesMut::new();
+            record.encode(&mut buf);
+            renumbered.push(buf.to_vec());
+        }
+        ctx.last_flight_records = Some(renumbered);
+        Ok(())
+    }
+
+    async fn handle_retransmit(&self, ctx: &mut HandshakeContext, is_client: bool) {
         if *self.state.lock() != DtlsState::Handshaking {
+            return;
+        }
+        if let Err(e) = self.renumber_last_flight(ctx, is_client) {
+            debug!("Retransmission skipped: {}", e);
             return;
         }
         if let Some(records) = &ctx.last_flight_records
@@ -691,6 +770,7 @@ impl DtlsInner {
                                 .await?;
                             } else if msg.msg_type == HandshakeType::Finished
                                 && !is_client
+                                && self.renumber_last_flight(ctx, is_client).is_ok()
                                 && let Some(records) = &ctx.last_flight_records
                             {
                                 // RFC 6347 4.2.4: a retransmitted client Finished means our
@@ -893,6 +973,7 @@ impl DtlsInner {
         }
 
         if ctx.server_random.is_some() {
+            self.renumber_last_flight(ctx, is_client)?;
             if let Some(records) = &ctx.last_flight_records
                 && let Err(e) = self.conn.send_dtls_record_batch(records).await
             {
@@ -1891,7 +1972,7 @@ impl DtlsInner {
                     ));
                 }
                 _ = retransmit_interval.tick() => {
-                    self.handle_retransmit(&ctx, is_client).await;
+                    self.handle_retransmit(&mut ctx, is_client).await;
                 }
                 packet = handshake_rx.recv() => {
                     let Some(packet) = packet else {
